@@ -33,10 +33,14 @@ using namespace FEAT;
 
 namespace
 {
-  typedef Shape::Hypercube<2> ShapeQ;
-  typedef Geometry::ConformalMesh<ShapeQ, 2, double> MeshQ;
-  typedef Trafo::Standard::Mapping<MeshQ> TrafoQ;
-  typedef Assembly::DomainAssembler<TrafoQ> DomAsm;
+  template<typename S_> struct T
+  {
+    static constexpr int dim = vm::ShapeInfo<S_>::dim;
+    static constexpr int nv = vm::ShapeInfo<S_>::nv;
+    typedef Geometry::ConformalMesh<S_, vm::ShapeInfo<S_>::dim, double> Mesh;
+    typedef Trafo::Standard::Mapping<Mesh> Trafo;
+    typedef Assembly::DomainAssembler<Trafo> DomAsm;
+  };
 
   // ------------------------------------------------------------------ monitor state (all relaxed atomics)
   constexpr std::memory_order RLX = std::memory_order_relaxed;
@@ -129,8 +133,10 @@ namespace
   }
 
   // ------------------------------------------------------------------ the instrumented job
+  template<typename S_>
   struct ShadowState
   {
+    typedef typename T<S_>::Mesh MeshQ;
     const MeshQ& mesh;
     std::vector<long> shadow;                         // plain, written in scatter() only
     std::vector<std::atomic<int>> owner;              // occupancy per vertex
@@ -151,26 +157,27 @@ namespace
     }
   };
 
-  template<bool scatter_, bool combine_>
+  template<typename S_, bool scatter_, bool combine_>
   class ShadowJob
   {
   public:
-    ShadowState& st;
-    explicit ShadowJob(ShadowState& s) : st(s) {}
+    ShadowState<S_>& st;
+    explicit ShadowJob(ShadowState<S_>& s) : st(s) {}
     class Task
     {
     public:
       static constexpr bool need_scatter = scatter_;
       static constexpr bool need_combine = combine_;
-      ShadowState& st; Index cell = 0; long local = 0, acc = 0;
+      ShadowState<S_>& st; Index cell = 0; long local = 0, acc = 0;
       explicit Task(ShadowJob& job) : st(job.st) { st.tasks.fetch_add(1, RLX); }
       void prepare(Index c) { cell = c; st.n_prep[c].fetch_add(1, RLX); M().progress.fetch_add(1, RLX); perturb(11); }
       void assemble() { local = long(cell) + 1; st.n_asm[cell].fetch_add(1, RLX); perturb(12); }
       void scatter()
       {
         st.n_scat[cell].fetch_add(1, RLX);
-        const auto& idx = st.mesh.template get_index_set<2, 0>();
-        for(int j = 0; j < 4; ++j)
+        const auto& idx = st.mesh.template get_index_set<T<S_>::dim, 0>();
+        constexpr int nv = T<S_>::nv;
+        for(int j = 0; j < nv; ++j)
         {
           const Index v = idx(cell, j);
           if(st.owner[v].fetch_add(1, RLX) != 0)
@@ -180,9 +187,9 @@ namespace
           st.owner_cell[v].store(long(cell), RLX);
         }
         perturb(13);
-        for(int j = 0; j < 4; ++j) st.shadow[idx(cell, j)] += local;   // <- the monitored plain writes
+        for(int j = 0; j < nv; ++j) st.shadow[idx(cell, j)] += local;   // <- the monitored plain writes
         perturb(14);
-        for(int j = 0; j < 4; ++j) st.owner[idx(cell, j)].fetch_sub(1, RLX);
+        for(int j = 0; j < nv; ++j) st.owner[idx(cell, j)].fetch_sub(1, RLX);
       }
       void finish() { acc += local; st.n_fin[cell].fetch_add(1, RLX); }
       void combine()
@@ -198,9 +205,10 @@ namespace
   };
 
   // ------------------------------------------------------------------ configuration generator
+  template<typename S_>
   struct Config
   {
-    vm::MeshSpec<ShapeQ> spec;
+    vm::MeshSpec<S_> spec;
     Assembly::ThreadingStrategy strat; const char* sname;
     std::size_t workers;
     std::vector<Index> subset; bool all;
@@ -219,20 +227,50 @@ namespace
     }
   }
 
-  Config gen_config(vh::Ctx& c)
+  inline void gen_mesh(vh::Ctx& c, vm::MeshSpec<Shape::Hypercube<2>>& spec)
   {
-    Config g;
     vh::Rng& r = c.rng;
     const int big = c.thorough() ? 12 : 8;
     switch(r.below(6))
     {
-    case 0: { Index n = Index(r.range(1, 4)); g.spec = vm::quad_grid(n, n); c.tag("mesh:square_small"); break; }
-    case 1: { Index n = Index(r.range(1, 16)); g.spec = r.coin() ? vm::quad_grid(n, 1) : vm::quad_grid(1, n); c.tag("mesh:strip"); break; }
-    case 2: { Index k = Index(r.range(3, 9)); g.spec = vm::quad_star(k); c.tag("mesh:star"); break; }
-    case 3: { g.spec = vm::quad_grid(Index(r.range(2, big)), Index(r.range(2, big))); c.tag("mesh:grid"); break; }
-    case 4: { g.spec = vm::quad_grid(Index(r.range(3, big)), Index(r.range(3, big))); vm::permute_cells(g.spec, r); vm::permute_vertices(g.spec, r); c.tag("mesh:grid_permuted"); break; }
-    default: { g.spec = vm::quad_grid(Index(r.range(2, big)), Index(r.range(2, big))); vm::reorient_cells(g.spec, r); vm::distort_interior(g.spec, r, 1.0 / double(big)); c.tag("mesh:grid_reoriented"); break; }
+    case 0: { Index n = Index(r.range(1, 4)); spec = vm::quad_grid(n, n); c.tag("mesh:square_small"); break; }
+    case 1: { Index n = Index(r.range(1, 16)); spec = r.coin() ? vm::quad_grid(n, 1) : vm::quad_grid(1, n); c.tag("mesh:strip"); break; }
+    case 2: { Index k = Index(r.range(3, 9)); spec = vm::quad_star(k); c.tag("mesh:star"); break; }
+    case 3: { spec = vm::quad_grid(Index(r.range(2, big)), Index(r.range(2, big))); c.tag("mesh:grid"); break; }
+    case 4: { spec = vm::quad_grid(Index(r.range(3, big)), Index(r.range(3, big))); vm::permute_cells(spec, r); vm::permute_vertices(spec, r); c.tag("mesh:grid_permuted"); break; }
+    default: { spec = vm::quad_grid(Index(r.range(2, big)), Index(r.range(2, big))); vm::reorient_cells(spec, r); vm::distort_interior(spec, r, 1.0 / double(big)); c.tag("mesh:grid_reoriented"); break; }
     }
+  }
+  inline void gen_mesh(vh::Ctx& c, vm::MeshSpec<Shape::Simplex<2>>& spec)
+  {
+    vh::Rng& r = c.rng;
+    const int big = c.thorough() ? 10 : 6;
+    if(r.coin(0.3)) { Index n = Index(r.range(1, 12)); spec = r.coin() ? vm::tria_grid(n, 1, &r) : vm::tria_grid(1, n, &r); c.tag("mesh:strip"); }
+    else { spec = vm::tria_grid(Index(r.range(1, big)), Index(r.range(1, big)), &r); c.tag("mesh:grid"); }
+    if(r.coin(0.4)) { vm::permute_cells(spec, r); vm::permute_vertices(spec, r); c.tag("mesh:permuted"); }
+  }
+  inline void gen_mesh(vh::Ctx& c, vm::MeshSpec<Shape::Hypercube<3>>& spec)
+  {
+    vh::Rng& r = c.rng;
+    const int big = c.thorough() ? 5 : 3;
+    spec = vm::hexa_grid(Index(r.range(1, big)), Index(r.range(1, big)), Index(r.range(1, big))); c.tag("mesh:grid");
+    if(r.coin(0.4)) { vm::permute_cells(spec, r); vm::permute_vertices(spec, r); c.tag("mesh:permuted"); }
+  }
+  inline void gen_mesh(vh::Ctx& c, vm::MeshSpec<Shape::Simplex<3>>& spec)
+  {
+    vh::Rng& r = c.rng;
+    const int big = c.thorough() ? 3 : 2;
+    spec = vm::tetra_grid(Index(r.range(1, big)), Index(r.range(1, big)), Index(r.range(1, big))); c.tag("mesh:grid");
+    if(r.coin(0.4)) { vm::permute_cells(spec, r); vm::permute_vertices(spec, r); c.tag("mesh:permuted"); }
+  }
+
+  template<typename S_>
+  Config<S_> gen_config(vh::Ctx& c)
+  {
+    Config<S_> g;
+    vh::Rng& r = c.rng;
+    c.tag(std::string("shape:") + vm::ShapeInfo<S_>::name());
+    gen_mesh(c, g.spec);
     const Index nc = g.spec.num_cells();
     static const Assembly::ThreadingStrategy ss[5] = {Assembly::ThreadingStrategy::automatic, Assembly::ThreadingStrategy::single,
       Assembly::ThreadingStrategy::layered, Assembly::ThreadingStrategy::layered_sorted, Assembly::ThreadingStrategy::colored};
@@ -261,7 +299,8 @@ namespace
     return g;
   }
 
-  void setup_assembler(DomAsm& da, const Config& g)
+  template<typename DA_, typename Cfg_>
+  void setup_assembler(DA_& da, const Cfg_& g)
   {
     da.set_threading_strategy(g.strat);
     da.set_max_worker_threads(g.workers);
@@ -271,7 +310,7 @@ namespace
 
   std::set<std::uint64_t> g_interleavings;
 
-  template<typename Fn> void run_monitored(vh::Ctx& c, const Config& g, Fn&& fn)
+  template<typename Cfg_, typename Fn> void run_monitored(vh::Ctx& c, const Cfg_& g, Fn&& fn)
   {
     { std::lock_guard<std::mutex> l(g_logs_mtx); g_logs.clear(); tl_log = nullptr; } // worker threads of earlier runs are gone
     M().perturb_seed.store(c.rng.next(), RLX);
@@ -296,9 +335,11 @@ namespace
 }
 
 // ---------------------------------------------------------------------- family: shadow
-template<bool scatter_, bool combine_>
-static void shadow_case(vh::Ctx& c, const Config& g, const MeshQ& mesh, TrafoQ& trafo, const char* jobname)
+template<typename S_, bool scatter_, bool combine_>
+static void shadow_case(vh::Ctx& c, const Config<S_>& g, const typename T<S_>::Mesh& mesh, typename T<S_>::Trafo& trafo, const char* jobname)
 {
+  typedef typename T<S_>::DomAsm DomAsm;
+  constexpr int nv = T<S_>::nv;
   c.tag(std::string("job:") + jobname);
   c.set_op("domasm.assemble.shadow");
   DomAsm da(trafo);
@@ -310,8 +351,8 @@ static void shadow_case(vh::Ctx& c, const Config& g, const MeshQ& mesh, TrafoQ& 
   c.count(std::string("resolved_workers:") + std::to_string(std::min<std::size_t>(da.get_num_worker_threads(), 9)));
   for(int rep = 0; rep < reps; ++rep)
   {
-    ShadowState st(mesh);
-    ShadowJob<scatter_, combine_> job(st);
+    ShadowState<S_> st(mesh);
+    ShadowJob<S_, scatter_, combine_> job(st);
     run_monitored(c, g, [&]() { da.assemble(job); });
     c.event();
     // exactly once
@@ -336,8 +377,8 @@ static void shadow_case(vh::Ctx& c, const Config& g, const MeshQ& mesh, TrafoQ& 
     if(scatter_)
     {
       std::vector<long> ref(mesh.get_num_vertices(), 0);
-      const auto& idx = mesh.get_index_set<2, 0>();
-      for(Index i = 0; i < nc; ++i) if(sel[i]) for(int j = 0; j < 4; ++j) ref[idx(i, j)] += long(i) + 1;
+      const auto& idx = mesh.template get_index_set<T<S_>::dim, 0>();
+      for(Index i = 0; i < nc; ++i) if(sel[i]) for(int j = 0; j < nv; ++j) ref[idx(i, j)] += long(i) + 1;
       for(Index v = 0; v < mesh.get_num_vertices(); ++v) if(ref[v] != st.shadow[v])
       {
         c.viol("domasm.assemble.shadow", "result-differs-from-serial", vh::J().kv("vertex", (unsigned long)v).kv("got", st.shadow[v]).kv("expected", ref[v]).kv("repetition", rep).str());
@@ -354,24 +395,36 @@ static void shadow_case(vh::Ctx& c, const Config& g, const MeshQ& mesh, TrafoQ& 
   }
 }
 
-VH_FAMILY(shadow)
+template<typename S_> static void shadow_shape(vh::Ctx& c)
 {
-  Config g = gen_config(c);
+  Config<S_> g = gen_config<S_>(c);
   auto mesh = vm::build(g.spec);
-  TrafoQ trafo(*mesh);
+  typename T<S_>::Trafo trafo(*mesh);
   switch(c.rng.below(4))
   {
-  case 0: shadow_case<true, false>(c, g, *mesh, trafo, "scatter"); break;
-  case 1: shadow_case<true, true>(c, g, *mesh, trafo, "scatter+combine"); break;
-  case 2: shadow_case<false, true>(c, g, *mesh, trafo, "combine_only"); break;
-  default: shadow_case<true, false>(c, g, *mesh, trafo, "scatter"); break;
+  case 0: shadow_case<S_, true, false>(c, g, *mesh, trafo, "scatter"); break;
+  case 1: shadow_case<S_, true, true>(c, g, *mesh, trafo, "scatter+combine"); break;
+  case 2: shadow_case<S_, false, true>(c, g, *mesh, trafo, "combine_only"); break;
+  default: shadow_case<S_, true, false>(c, g, *mesh, trafo, "scatter"); break;
+  }
+}
+
+VH_FAMILY(shadow)
+{
+  switch(c.rng.below(10))
+  {
+  case 0: case 1: shadow_shape<Shape::Simplex<2>>(c); break;
+  case 2: case 3: shadow_shape<Shape::Hypercube<3>>(c); break;
+  case 4: shadow_shape<Shape::Simplex<3>>(c); break;
+  default: shadow_shape<Shape::Hypercube<2>>(c); break;
   }
 }
 
 // ---------------------------------------------------------------------- family: real FEAT jobs
-template<typename Space_>
-static void real_case(vh::Ctx& c, const Config& g, TrafoQ& trafo, const char* sname)
+template<typename S_, typename Space_>
+static void real_case(vh::Ctx& c, const Config<S_>& g, typename T<S_>::Trafo& trafo, const char* sname)
 {
+  typedef typename T<S_>::DomAsm DomAsm;
   typedef LAFEM::SparseMatrixCSR<double, Index> MatrixType;
   typedef LAFEM::DenseVector<double, Index> VectorType;
   c.tag(std::string("space:") + sname);
@@ -381,12 +434,12 @@ static void real_case(vh::Ctx& c, const Config& g, TrafoQ& trafo, const char* sn
   mat_thr = mat_ref.clone(LAFEM::CloneMode::Layout);
   VectorType vec_ref(space.get_num_dofs()), vec_thr(space.get_num_dofs());
   Assembly::Common::LaplaceOperator lapl;
-  Analytic::Common::SineBubbleFunction<2> func;
+  Analytic::Common::SineBubbleFunction<T<S_>::dim> func;
   const String cub("gauss-legendre:3");
   // reference: no worker threads
   double int_ref = 0.0, int_thr = 0.0;
   {
-    Config s = g; s.workers = 0;
+    Config<S_> s = g; s.workers = 0;
     DomAsm da(trafo); setup_assembler(da, s);
     mat_ref.format(); vec_ref.format();
     Assembly::assemble_bilinear_operator_matrix_1(da, mat_ref, lapl, space, cub);
@@ -422,13 +475,26 @@ static void real_case(vh::Ctx& c, const Config& g, TrafoQ& trafo, const char* sn
   }
 }
 
+template<typename S_> static void real_shape(vh::Ctx& c, bool second_order)
+{
+  Config<S_> g = gen_config<S_>(c);
+  auto mesh = vm::build(g.spec);
+  typename T<S_>::Trafo trafo(*mesh);
+  if(second_order) real_case<S_, Space::Lagrange2::Element<typename T<S_>::Trafo>>(c, g, trafo, "Lagrange2");
+  else real_case<S_, Space::Lagrange1::Element<typename T<S_>::Trafo>>(c, g, trafo, "Lagrange1");
+}
+
 VH_FAMILY(real)
 {
-  Config g = gen_config(c);
-  auto mesh = vm::build(g.spec);
-  TrafoQ trafo(*mesh);
-  if(c.rng.coin(0.6)) real_case<Space::Lagrange1::Element<TrafoQ>>(c, g, trafo, "Q1");
-  else real_case<Space::Lagrange2::Element<TrafoQ>>(c, g, trafo, "Q2");
+  switch(c.rng.below(10))
+  {
+  case 0: real_shape<Shape::Simplex<2>>(c, false); break;
+  case 1: real_shape<Shape::Simplex<2>>(c, true); break;
+  case 2: real_shape<Shape::Hypercube<3>>(c, false); break;
+  case 3: real_shape<Shape::Simplex<3>>(c, false); break;
+  case 4: case 5: case 6: real_shape<Shape::Hypercube<2>>(c, true); break;
+  default: real_shape<Shape::Hypercube<2>>(c, false); break;
+  }
 }
 
 int main(int argc, char** argv)
